@@ -422,7 +422,13 @@ fn run_parent(id: &str, tier: Tier, seed: i64) -> i32 {
     let mut notes: Vec<String> = Vec::new();
     for r in &results {
         replayed += r.replayed;
-        notes.extend(r.notes.iter().cloned());
+        for n in &r.notes {
+            if let Some(rest) = n.strip_prefix("INFRA: ") {
+                infra.push(rest.to_string());
+            } else {
+                notes.push(n.clone());
+            }
+        }
         for (name, g) in &r.groups {
             let m = groups.entry(name.clone()).or_default();
             m.evaluations += g.evaluations;
